@@ -268,7 +268,7 @@ class CP1Disk(CP1Object):
         if broadcast == "elementwise":
             res[s_aff & o_aff] = intersect[s_aff & o_aff]
             res[~s_aff & o_aff] = ~contain[~s_aff & o_aff]
-            res[s_aff & ~o_aff] = ~contained[~s_aff & ~o_aff]
+            res[s_aff & ~o_aff] = ~contained[s_aff & ~o_aff]
             return res
 
         affaffmask = np.logical_and(
